@@ -19,7 +19,8 @@ performed them (labels are observed, effects are predicted):
                                  fresh connection (a closed sink object cannot be re-opened: its loops see the state
                                  still Closed and exit at once; the real stack always builds a new sink)
 
-Observation after each: (result assigned-tag (frames written) (request ids answered) (tag-map keys) (free set) next).
+Observation after each: (result assigned-tag (frames written) (request ids answered) (tag-map keys) (free set) next
+send-queue-length).
 Frames are decoded from the bytes the real sink wrote to the fake socket: (req tag rid) | (discard 0 tag) | (ping 1 0).
 
 Script vocabulary (what the generator controls; the labels above are what the real run then did):
@@ -106,6 +107,94 @@ def gen_script(rng, tier):
             ops.append(['D'])
         if rng.random() < p_drain:
             ops.append(['D'])
+    return {'max': mx, 'ops': ops}
+
+
+def gen_script_focus(rng, tier, focus):
+    """the same vocabulary, biased: `replies` — several requests in flight, answered out of order, twice, early,
+    on foreign tags (C02, multiplexed hop); `timeouts` — deadline events before and after transmission, the
+    Tdiscarded that follows, answers racing the time-out callback (C12, multiplexed hop)"""
+    mx = rng.choice([None, None, None, 6, 8])
+    ops = []
+    nreq = 0
+    pending = []      # rids with an unfired event
+    live = []         # rids believed unanswered
+    rounds = rng.choice([2, 3, 5] if tier != 'thorough' else [3, 5, 9])
+    for _ in range(rounds):
+        if focus == 'replies':
+            k = rng.choice([2, 3, 4, 6])
+            for _ in range(k):
+                kind = rng.choice(['noev', 'noev', 'ev'])
+                if rng.random() < 0.15:
+                    ops.append(['early', kind, -2])
+                else:
+                    ops.append(['req', kind])
+                if kind == 'ev':
+                    pending.append(nreq)
+                live.append(nreq)
+                nreq += 1
+                if rng.random() < 0.3:
+                    ops.append(rng.choice([['D'], ['Y']]))
+            if rng.random() < 0.8:
+                ops.append(['D'])
+            order = list(live)
+            rng.shuffle(order)
+            for r in order:
+                x = rng.random()
+                if x < 0.75:
+                    ops.append(['ans', r, -2 if rng.random() < 0.8 else rng.choice(MTYPES)])
+                    live.remove(r)
+                    if rng.random() < 0.25:
+                        ops.append(['ans', r, -2])          # the same answer again
+                elif x < 0.85:
+                    ops.append(['peer', -2, rng.choice([0, 1, 2, 3, 4, 5, 9, 77])])
+                elif x < 0.92 and pending:
+                    ops.append(['fire', pending.pop(rng.randrange(len(pending)))])
+                if rng.random() < 0.35:
+                    ops.append(rng.choice([['D'], ['Y']]))
+            ops.append(['D'])
+        else:
+            k = rng.choice([1, 2, 3, 4])
+            batch = []
+            for _ in range(k):
+                kind = rng.choice(['ev', 'ev', 'ev', 'pre', 'noev'])
+                ops.append(['req', kind])
+                if kind == 'ev':
+                    pending.append(nreq)
+                batch.append(nreq)
+                live.append(nreq)
+                nreq += 1
+            # deadline before transmission: fire in the same batch as the request
+            for r in list(pending):
+                if rng.random() < 0.35:
+                    ops.append(['fire', r])
+                    pending.remove(r)
+            ops.append(rng.choice([['D'], ['D'], ['Y']]))
+            # deadline after transmission; the answer may race the callback
+            for r in list(pending):
+                x = rng.random()
+                if x < 0.5:
+                    ops.append(['fire', r])
+                    pending.remove(r)
+                    y = rng.random()
+                    if y < 0.25:
+                        ops.append(['ans', r, -2])          # reply processed before the time-out callback
+                    elif y < 0.4:
+                        ops.append(['Y'])
+                        ops.append(['ans', r, -2])
+                    if rng.random() < 0.6:
+                        ops.append(['D'])
+            ops.append(['D'])
+            for r in list(live):
+                if rng.random() < 0.5:
+                    ops.append(['ans', r, rng.choice([-2, -66, -66, -128])])    # e.g. Rdiscarded
+                    live.remove(r)
+            if rng.random() < 0.15:
+                ops.append(['ping'])
+            ops.append(['D'])
+        if rng.random() < 0.08:
+            ops.append(['reopen'])
+            nreq, pending, live = 0, [], []
     return {'max': mx, 'ops': ops}
 
 
@@ -307,7 +396,7 @@ def run_script(script):
         free = sorted(_canon(t) for t in pool._set)
         fr = frames_written()
         dl, rec.delivered = rec.delivered, []
-        return [res, assigned, fr, dl, keys, free, _canon(pool._next)]
+        return [res, assigned, fr, dl, keys, free, _canon(pool._next), sink._send_queue.qsize()]
 
     def push(op, obs):
         recs.append((op, obs))
@@ -460,7 +549,7 @@ def run_script(script):
         errs = [e for e in errs if e not in quirk]
     if errs:
         tags.add('hub-error')
-        steps.append(['send', vfmt(['raised', 0, [], [], [], [], 0])])
+        steps.append(['send', vfmt(['raised', 0, [], [], [], [], 0, 0])])
     _tag_case(recs, tags)
     return {'comp': COMPONENT, 'cfg': str(mx), 'steps': steps, 'tags': sorted(tags)}
 
@@ -470,7 +559,7 @@ def _tag_case(recs, tags):
     written = {}        # tag -> rid, request frames written and not answered since
     held = {}           # tag -> rid currently in the tag map (by our own bookkeeping of the observations)
     for op, obs in recs:
-        res, assigned, frames, delivered, keys, free, nxt = obs
+        res, assigned, frames, delivered, keys, free, nxt, qlen = obs
         k = op[0]
         if k == 'req':
             if res == 'exhausted':
@@ -492,6 +581,8 @@ def _tag_case(recs, tags):
                     written[f[1]] = f[2]
         elif k == 'notify':
             tags.add('timeout-after-send')
+            if not frames and qlen == 0:
+                tags.add('timeout-callback-after-answer')
         elif k == 'process':
             t = op[2]
             if t in (0, 1):
